@@ -104,7 +104,7 @@ IEndOK == LET listed == {Ev.xs[k][1] : k \in 1..Len(Ev.xs)}
           /\ \A k \in 1..Len(Ev.xs) : Ev.xs[k][1] \in DOMAIN enc /\ enc[Ev.xs[k][1]] = Ev.xs[k][2]
           /\ \A v \in snap[Ev.id] : v \in listed \/ enc[v][1] \in hidden
 TIEnd == /\ Ev.e = "iend"
-         /\ IEndOK
+         /\ IEndOK = TRUE     \* "= TRUE": evaluated as a value, not unfolded by the next-state enumeration
          /\ UNCHANGED <<enc, dec, op, retOf, snap>>
 TReset == /\ Ev.e = "reset"
           /\ enc' = <<>> /\ dec' = <<>> /\ op' = [t \in Threads |-> Idle]
